@@ -52,5 +52,38 @@ FeFdCount(op, a, form) ==
       [] op = "set_log_base" -> IF form = "shmfd" THEN 1 ELSE 0
       [] OTHER -> 0
 
+\* Body of the reply the backend request server writes for request c (arguments a), given the
+\* values hv the handler produced; ok = handler succeeded; withFile = it returned a descriptor.
+\* Returns <<>> where the document does not fix the body (SET_LOG_BASE) -- callers skip those.
+ConfigPayload(fill, n) == [i \in 1..n |-> (fill + i - 1) % 256]
+FeReplyBody(c, a, hv, ok, withFile) ==
+    CASE c = GET_FEATURES -> U64(hv.features)
+      [] c = GET_PROTOCOL_FEATURES -> U64(hv.proto)
+      [] c = GET_QUEUE_NUM -> U64(hv.queue_num)
+      [] c = GET_MAX_MEM_SLOTS -> U64(hv.max_mem_slots)
+      [] c = GET_VRING_BASE -> N32(a.index) \o U32(hv.vring_base)
+      [] c = GET_CONFIG -> IF ok THEN U32(a.offset) \o U32(a.size) \o N32(a.flags) \o ConfigPayload(hv.config_fill, a.plen)
+                           ELSE U32(a.offset) \o Zeros(4) \o N32(a.flags)
+      [] c = GET_INFLIGHT_FD -> U64(hv.inflight[1]) \o U64(hv.inflight[2]) \o N16(hv.inflight[3]) \o N16(hv.inflight[4])
+      [] c = SET_DEVICE_STATE_FD -> IF ~ok THEN N64(257) ELSE IF withFile THEN N64(0) ELSE N64(256)
+      [] c = CHECK_DEVICE_STATE -> IF ok THEN N64(0) ELSE <<>>      \* any non-zero value signals failure
+      [] c = GET_SHMEM_CONFIG -> N32(Len(hv.shmem)) \o Zeros(4) \o Flatten([i \in 1..Len(hv.shmem) |-> U64(hv.shmem[i])])
+                                 \o Zeros(8 * (256 - Len(hv.shmem)))
+      [] OTHER -> <<>>
+FeReplyJudgedBytes(c, ok) == c \in {GET_FEATURES, GET_PROTOCOL_FEATURES, GET_QUEUE_NUM, GET_MAX_MEM_SLOTS, GET_VRING_BASE, GET_CONFIG,
+                                    GET_INFLIGHT_FD, SET_DEVICE_STATE_FD, GET_SHMEM_CONFIG} \/ (c = CHECK_DEVICE_STATE /\ ok)
+FeReplyFds(c, ok, withFile) ==
+    CASE c \in {GET_INFLIGHT_FD, GET_SHARED_OBJECT} -> IF ok THEN 1 ELSE 0
+      [] c = SET_DEVICE_STATE_FD -> IF ok /\ withFile THEN 1 ELSE 0
+      [] OTHER -> 0
+
+\* backend -> frontend requests
+BeBody(k, a) ==
+    IF k \in {6, 7, 8} THEN a.ubytes
+    ELSE <<a.shmid>> \o Zeros(7) \o U64(a.fd_offset) \o U64(a.shm_offset) \o U64(a.len) \o U64(a.flags)
+
+\* two's complement of a small positive number as 64-bit limbs: 2^64 - n, 0 < n < 65536
+NegLimbs(n) == <<65536 - n, 65535, 65535, 65535>>
+
 ReqFlags(nr) == FLAG_VERSION + (IF nr THEN FLAG_NEED_REPLY ELSE 0)
 =============================================================================
